@@ -69,6 +69,11 @@ CHECKS = [
   'level': 'For all extended states, sub-steps, coupling constants and coefficient values each sub-map is symplectic for dQ^dP + dX^dY, exactly reversible, and generated by its part of the extended Hamiltonian, which restricts to H on the diagonal; '
            'the order-2 scheme is the palindromic composition; the triple-jump fractions of orders 4, 6, 8 are checked against the order condition.',
   'note': 'H of degree <= 3 with 9 symbolic coefficients; composition/symmetry theorems lift sub-map facts to the full step; KNOWN FINDING: the triple-jump constant uses the outer order (orders 4, 6, 8 do not reach their declared order); long-time energy behaviour outside'},
+ {'id': 'C07',
+  'technique': 'symbolic execution of the series builders, the Hamiltonian assembly, the c_n formulas and the local<->synodic maps with symbolic mu, gamma; series identities Q S^2 = 1 (mod degree), field-through-map and Hessian identities decided on exact normal forms / by z3',
+  'level': 'T_n and A_n are the degree-N Taylor polynomials of the inverse distances (no differentiation: generating identities); the assembled Hamiltonians equal the closed forms with the library\'s c_n, which equal the geometric coefficients of the primaries in the library\'s local frame; '
+           'the exact mapped energy minus the closed form is affine, and the Hamiltonian flow pushed through local2synodic is the CR3BP field, for L1..L5 and all mu, gamma.',
+  'note': 'N <= 6 (8 thorough) of the 10 in the statement; uniqueness of the power-series square root and "vanishing Hessian => affine" are the trusted steps; remainder size is analysis outside the claim'},
 ]
 _BUILT = {c['id'] for c in CHECKS}
 NOT_APPLICABLE = [
